@@ -126,6 +126,9 @@ fn main() {
             "C18" => c15::scenario_of("C18", hist::Sem::C18, seed, run),
             _ => std::process::exit(2),
         };
+        if let Some(p) = env("OALSIM_SCENARIO_DUMP") {
+            let _ = std::fs::write(p, serde_json::to_string(&scn).unwrap_or_default());
+        }
         match lsp_sim::probe(&scn, k) {
             None => {
                 println!("fresh-alive");
